@@ -171,6 +171,8 @@ def check_context(inp):
       pass
     if fec._BACKEND_CHOICE.backend is not start:
       return 'an unknown backend name changed the selection'
+  if kind == 'threads_overlap':
+    return check_threads_overlap()
   if kind == 'threads':
     seen = {}
     ev1, ev2 = threading.Event(), threading.Event()
@@ -191,8 +193,37 @@ def check_context(inp):
       return f'backend selection leaks across threads: main {mine}, other thread {seen}'
 
 
+def check_threads_overlap():
+  """A enters, B enters, A exits, B exits (overlapping, not nested): each thread must get its own previous backend back."""
+  res = {}
+  a_in, b_in, a_out = threading.Event(), threading.Event(), threading.Event()
+  mark_a, mark_b = fec.ForEachClientDebugBackend(), fec.ForEachClientDebugBackend()
+
+  def thread_a():
+    fec.set_for_each_client_backend(mark_a)
+    with fec.for_each_client_backend('jit'):
+      a_in.set()
+      b_in.wait(5)
+    res['a_after'] = fec.get_for_each_client_backend()
+    a_out.set()
+
+  def thread_b():
+    fec.set_for_each_client_backend(mark_b)
+    a_in.wait(5)
+    with fec.for_each_client_backend('debug'):
+      b_in.set()
+      a_out.wait(5)
+    res['b_after'] = fec.get_for_each_client_backend()
+  ta, tb = threading.Thread(target=thread_a), threading.Thread(target=thread_b)
+  ta.start(); tb.start(); ta.join(); tb.join()
+  if res.get('a_after') is not mark_a or res.get('b_after') is not mark_b:
+    return ('overlapping backend contexts in two threads: after exit thread A has '
+            f'{type(res.get("a_after")).__name__}{"" if res.get("a_after") is mark_a else " (not its own previous backend)"}, thread B has '
+            f'{type(res.get("b_after")).__name__}{"" if res.get("b_after") is mark_b else " (not its own previous backend)"}')
+
+
 def sweep_context(tier, seed):
-  for k in ('exception', 'nested', 'unknown', 'threads'):
+  for k in ('exception', 'nested', 'unknown', 'threads', 'threads_overlap'):
     yield dict(kind=k)
 
 
